@@ -108,12 +108,12 @@ def dateInsert (e : Int × Nat × Nat) : List (Int × Nat × Nat) → List (Int 
   | x :: xs => if x.1 ≥ e.1 then x :: dateInsert e xs else e :: x :: xs
 
 /-- stable sort of commits by commit time, newest first -/
+def insNewest (g : Dag) (c : Nat) : List Nat → List Nat
+  | [] => [c]
+  | x :: xs => if g.time x ≥ g.time c then x :: insNewest g c xs else c :: x :: xs
+
 def sortNewestFirst (g : Dag) (l : List Nat) : List Nat :=
-  l.foldl (fun acc c =>
-    let rec ins : List Nat → List Nat
-      | [] => [c]
-      | x :: xs => if g.time x ≥ g.time c then x :: ins xs else c :: x :: xs
-    ins acc) []
+  l.foldl (fun acc c => insNewest g c acc) []
 
 def dedup : List Nat → List Nat → List Nat
   | [], acc => acc.reverse
@@ -126,48 +126,61 @@ structure KahnState where
   stack : List Nat
   out : List Nat
 
+/-- one more selected child of `p` -/
+def bumpDeg (a : Array Nat) (p : Nat) : Array Nat :=
+  match a[p]? with
+  | some d => a.setIfInBounds p (d + 1)
+  | none => a
+
+/-- in-degrees: 1 + number of selected children -/
+def indegInit (g : Dag) (n : Nat) (sel : Nat → Bool) : Array Nat :=
+  (List.range n).foldl (fun (a : Array Nat) c =>
+      if sel c then (g.parents c).foldl bumpDeg a else a) (Array.replicate n 1)
+
+def cPush (g : Dag) (dateOrder : Bool) (s : KahnState) (c : Nat) : KahnState :=
+  if dateOrder then { s with dateQ := dateInsert (g.time c, s.ctr, c) s.dateQ, ctr := s.ctr + 1 }
+  else { s with stack := c :: s.stack }
+
+def cNext (dateOrder : Bool) (s : KahnState) : Option (Nat × KahnState) :=
+  if dateOrder then
+    match s.dateQ with
+    | [] => none
+    | e :: rest => some (e.2.2, { s with dateQ := rest })
+  else
+    match s.stack with
+    | [] => none
+    | c :: rest => some (c, { s with stack := rest })
+
+/-- the counter of a selected parent of the commit just shown is decremented; at 1 it is queued -/
+def cStep (g : Dag) (sel : Nat → Bool) (dateOrder : Bool) (s : KahnState) (p : Nat) : KahnState :=
+  if sel p then
+    match s.indeg[p]? with
+    | some d =>
+      let s' := { s with indeg := s.indeg.setIfInBounds p (d - 1) }
+      if d - 1 = 1 then cPush g dateOrder s' p else s'
+    | none => s
+  else s
+
+def cLoop (g : Dag) (sel : Nat → Bool) (dateOrder : Bool) : Nat → KahnState → List Nat
+  | 0, s => s.out
+  | fuel + 1, s =>
+    match cNext dateOrder s with
+    | none => s.out
+    | some (c, s1) =>
+      cLoop g sel dateOrder fuel ((g.parents c).foldl (cStep g sel dateOrder) { s1 with out := s1.out ++ [c] })
+
+/-- git's sort with its counters, over the selection `sel` -/
+def gitCount (g : Dag) (n : Nat) (sel : Nat → Bool) (tips : List Nat) (dateOrder : Bool) : List Nat :=
+  let indeg0 := indegInit g n sel
+  let heads := sortNewestFirst g ((dedup tips []).filter fun t => sel t && (indeg0[t]? == some 1))
+  let s0 : KahnState :=
+    if dateOrder then heads.foldl (cPush g dateOrder) { indeg := indeg0, dateQ := [], ctr := 0, stack := [], out := [] }
+    else { indeg := indeg0, dateQ := [], ctr := 0, stack := heads, out := [] }
+  cLoop g sel dateOrder (n + 1) s0
+
 def gitTopoOrder (g : Dag) (n : Nat) (tips hidden : List Nat) (dateOrder : Bool) : List Nat :=
   let hid := ancestorsTable g n hidden
   let rch := ancestorsTable g n tips
-  let sel : Nat → Bool := fun x => tableHas rch x && !tableHas hid x
-  -- in-degrees: 1 + number of selected children
-  let indeg0 : Array Nat := (List.range n).foldl (fun (a : Array Nat) c =>
-      if sel c then (g.parents c).foldl (fun (a : Array Nat) p =>
-        match a[p]? with
-        | some d => a.setIfInBounds p (d + 1)
-        | none => a) a
-      else a) (Array.replicate n 1)
-  let heads := sortNewestFirst g ((dedup tips []).filter fun t => sel t && (indeg0[t]? == some 1))
-  let push (s : KahnState) (c : Nat) : KahnState :=
-    if dateOrder then { s with dateQ := dateInsert (g.time c, s.ctr, c) s.dateQ, ctr := s.ctr + 1 }
-    else { s with stack := c :: s.stack }
-  let s0 : KahnState :=
-    if dateOrder then heads.foldl push { indeg := indeg0, dateQ := [], ctr := 0, stack := [], out := [] }
-    else { indeg := indeg0, dateQ := [], ctr := 0, stack := heads, out := [] }
-  let rec loop : Nat → KahnState → List Nat
-    | 0, s => s.out
-    | fuel + 1, s =>
-      let next : Option (Nat × KahnState) :=
-        if dateOrder then
-          match s.dateQ with
-          | [] => none
-          | e :: rest => some (e.2.2, { s with dateQ := rest })
-        else
-          match s.stack with
-          | [] => none
-          | c :: rest => some (c, { s with stack := rest })
-      match next with
-      | none => s.out
-      | some (c, s1) =>
-        let s2 := (g.parents c).foldl (fun (s : KahnState) p =>
-          if sel p then
-            match s.indeg[p]? with
-            | some d =>
-              let s' := { s with indeg := s.indeg.setIfInBounds p (d - 1) }
-              if d - 1 = 1 then push s' p else s'
-            | none => s
-          else s) { s1 with out := s1.out ++ [c] }
-        loop fuel s2
-  loop (n + 1) s0
+  gitCount g n (fun x => tableHas rch x && !tableHas hid x) tips dateOrder
 
 end GixModel.Spec.C47
